@@ -372,10 +372,109 @@ def fuzz_specs(draw, q):
     return spec
 
 
+# ---------------------------------------------------------------------------------------------------------------------
+# binary-flux (ARC / VARPOW) inputs: the two intact single-assembly data sets
+ARC_FAULTS = ["none", "none", "metal_without_alloy", "unknown_heating_coolant", "missing_binary_file", "file_count_mismatch",
+              "binary_path_not_given", "core_length_mismatch", "assembly_pitch_mismatch", "more_positions_than_geodst",
+              "fuel_material_missing", "unknown_fuel_alloy"]
+
+
+def arc_fault_text(spec):
+    from . import C03
+    sp = copy.deepcopy(spec["arc"])
+    f = spec["fault"]
+    dd = os.path.join(env.REPO, "tests", "test_data", "single_asm_" + sp["dataset"])
+    if f == "metal_without_alloy":
+        sp["fuel_material"], sp["fuel_alloy"] = "metal", None
+    elif f == "unknown_heating_coolant":
+        sp["coolant"], sp["coolant_heating"] = "sodium_se2anl", None
+    t = C03.arc_text(sp, dd)
+    name = spec["file"].upper()
+    line = "        %s = %s" % (spec["file"], os.path.join(dd, name))
+    assert line in t
+    if f == "missing_binary_file":
+        t = t.replace(line, line + "_absent")
+    elif f == "file_count_mismatch":
+        t = t.replace(line, line + ", " + os.path.join(dd, name))
+    elif f == "binary_path_not_given":
+        t = t.replace(line + "\n", "")
+    elif f == "core_length_mismatch":
+        um = {"m": 1.0, "cm": 100.0, "in": 1.0 / 0.0254}[sp["len_unit"]]
+        old = "    length = %.10g" % (C03.ARC_LEN * um)
+        assert old in t
+        t = t.replace(old, "    length = %.10g" % (C03.ARC_LEN * um * spec["mag"]))
+    elif f == "assembly_pitch_mismatch":
+        u = {"m": 0.0254, "cm": 2.54, "in": 1.0}[sp["len_unit"]]
+        old = "    assembly_pitch = %.10g" % (C03.ARC_INCH["pitch"] * u)
+        assert old in t
+        t = t.replace(old, "    assembly_pitch = %.10g" % (C03.ARC_INCH["pitch"] * u * (1.0 + 0.03 * spec["mag"])))
+    elif f == "more_positions_than_geodst":
+        t = t.rstrip("\n") + "\n        fuel = 2, 1, %d, flowrate=10.0\n" % spec["pick"]
+    elif f == "fuel_material_missing":
+        t = "\n".join(l for l in t.splitlines() if "fuel_material" not in l) + "\n"
+    elif f == "unknown_fuel_alloy":
+        if "fuel_alloy" in t:
+            t = "\n".join(("        fuel_alloy = unobtainium" if "fuel_alloy" in l else l) for l in t.splitlines()) + "\n"
+        else:
+            t = t.replace("    [[ARC]]\n", "    [[ARC]]\n        fuel_alloy = unobtainium\n")
+    return t
+
+
+def run_arc(spec):
+    import shutil
+    import tempfile
+    import dassh
+    o = Outcome()
+    f = spec["fault"]
+    o.classes["arc_fault"] = f
+    text = arc_fault_text(spec)
+    d = tempfile.mkdtemp(prefix="vf_c18arc_")
+    cwd = os.getcwd()
+    os.chdir(d)
+    try:
+        with open("input.txt", "w") as fh:
+            fh.write(text)
+        try:
+            inp = drive.guarded("read", dassh.DASSH_Input, "input.txt")
+            r = drive.guarded("setup", dassh.Reactor, inp, write_output=False)
+            drive.guarded("sweep", drive.sweep, r, max_steps=spec.get("max_steps"))
+            kind, detail, sig = "swept", "", None
+        except drive.Rejected as e:
+            kind, detail, sig = "rejected:" + e.stage, str(e)[:300], None
+        except drive.Crashed as e:
+            kind, detail, sig = "crash", str(e)[:400], "%s@%s" % (e.exc_type, e.where)
+    finally:
+        os.chdir(cwd)
+        shutil.rmtree(d, ignore_errors=True)
+    o.classes["arc_outcome"] = kind
+    if f == "none":
+        o.check(kind != "crash", "valid_arc_input_crashes:%s" % sig, detail)
+        # a material out of its correlation range during the sweep is a documented stop; a rejection before it is not expected
+        o.check(not kind.startswith("rejected:read") and not kind.startswith("rejected:setup"), "valid_arc_input_rejected", detail)
+        o.nontrivial = kind == "swept"
+    else:
+        o.check(kind != "crash", "invalid_input_crashes:%s:%s" % (f, sig), detail)
+        o.check(kind != "swept" and not kind.startswith("rejected:sweep"), "invalid_input_accepted:" + f,
+                "%s: outcome %s %s" % (f, kind, detail))
+        o.nontrivial = True
+    return o
+
+
+@st.composite
+def arc_specs(draw):
+    from . import C03
+    sp = {"arc": draw(C03.arc_cases()), "fault": draw(st.sampled_from(ARC_FAULTS)),
+          "file": draw(st.sampled_from(list(C03.ARC_FILES))),
+          "mag": gen.r6(draw(st.one_of(gen.fl(0.5, 0.97), gen.fl(1.03, 2.0)))), "pick": draw(st.integers(1, 6)), "max_steps": 25}
+    sp["arc"]["axial_mesh_size"] = None
+    return sp
+
+
 def parts(tier):
     q = tier == "quick"
     return [
         Part("valid_inputs", run_valid, strategy=valid_specs(q), examples=160 if q else 6000, timeout=120),
         Part("single_faults", run_fault, strategy=fault_specs(q), examples=240 if q else 6000, timeout=120),
         Part("text_fuzz", run_fuzz, strategy=fuzz_specs(q), examples=200 if q else 10000, timeout=60),
+        Part("binary_flux_inputs", run_arc, strategy=arc_specs(), examples=64 if q else 1500, timeout=120),
     ]
